@@ -450,6 +450,64 @@ def _retried_wait(rng: random.Random, waiter: dict, own: bool) -> list[dict]:
     return extra
 
 
+def gen_handover_spec(rng: random.Random) -> dict:
+    """a SATURATED step (num_workers = N, more than N inputs: the rest is queued) whose running invocations give their
+    worker back WITHOUT a step result: they suspend in ctx.wait_for_event, fail into a delayed retry, or fail for good into
+    a @catch_error handler.  The queued events have to be handed to the step on the freed worker right then -- not when
+    (if ever) the suspended invocation comes back and completes.  A gate at the head of the body keeps the first
+    invocations on their workers until the later events have been accepted and queued; some inputs come from a caller
+    (external sends) instead of the start step."""
+    nw = rng.choice([1, 1, 1, 2, 2, 3])
+    n = nw + rng.randint(1, 3)
+    mode = rng.choice(["wait", "wait", "retry_delay", "handler", "handler", "retry_then_handler"])
+    ks = [rng.choice([1, 2, 2, 3]) for _ in range(n)]
+    if mode != "wait" and 2 not in ks:
+        ks[rng.randrange(min(nw, n))] = 2  # one of the first invocations is a failing one
+    head: list = [["gate"]] if rng.random() < 0.85 else ([["sleep", rng.choice([1, 2])]] if rng.random() < 0.5 else [])
+    tail: list = ([["gate"]] if rng.random() < 0.3 else []) + [["ret", rng.choice(["6", "6", "none"])]]
+    retry = None
+    extra: list[dict] = []
+    ext: list[dict] = []
+    wty = rng.choice([3, 11])
+    if mode == "wait":
+        own = rng.random() < 0.4
+        timeout = rng.choice([None, None, 5, 20])
+        body = [["wait", wty, "own" if own else rng.choice([None, 1, 2]), timeout, None if own else "per", rng.choice([None, 2]),
+                 rng.choice(["swallow", "raise"])]]
+        if own:
+            ks = rng.sample([1, 2, 3, 4, 5, 6], n)
+        for _ in range(rng.randint(0, n)):
+            ext.append({"op": "send", "ty": rng.choice([wty, wty, wty, 3, 11]), "k": rng.choice(ks + [None]) if own else rng.choice([None, 1, 2]),
+                        "step": rng.choice([None, None, "s02"]), "after_quiet": rng.randint(1, 8)})
+    elif mode == "retry_delay":
+        nfail = rng.randint(1, 2)
+        retry = {"kind": rng.choice(["attempts", "attempts", "legacy"]), "n": nfail + rng.randint(1, 2), "wait": rng.choice([1, 2, 5])}
+        body = [rng.choice([["fail_until", nfail, rng.randint(1, 9)], ["fail_until", nfail, rng.randint(1, 9)], ["fail_on_k", 2, rng.randint(1, 9)]])]
+    else:
+        if mode == "retry_then_handler":
+            retry = {"kind": "attempts", "n": rng.randint(2, 3), "wait": rng.choice([0, 0, 2])}
+        body = [rng.choice([["fail_on_k", 2, rng.randint(1, 9)], ["fail_on_k", 2, rng.randint(1, 9)], ["fail_always", rng.randint(1, 9)]])]
+    if mode in ("handler", "retry_then_handler") or (mode == "retry_delay" and body[0][0] == "fail_on_k"):
+        extra.append({"name": "s12", "accepts": [4], "role": "handler", "for_steps": rng.choice([None, ["s02"]]), "max_rec": rng.randint(1, 3),
+                      "script": ([["gate"]] if rng.random() < 0.3 else []) + [["ret", rng.choice(["6", "6", "none", "none", "5", "stop"])]]})
+    worker = {"name": "s02", "accepts": [5], "nw": nw, "retry": retry, "script": head + body + tail}
+    n_ext = rng.choice([0, 0, 0, 1, 2]) if n > 1 else 0
+    from_start, from_caller = ks[: n - n_ext], ks[n - n_ext:]
+    start = {"name": "s00", "accepts": [0], "nw": 1, "retry": None,
+             "script": [["send", 5, rng.choice([None, None, "s02"]), k] for k in from_start] + [["ret", "none"]]}
+    for k in from_caller:
+        ext.append({"op": "send", "ty": 5, "k": k, "step": rng.choice([None, "s02"]), "after_quiet": rng.randint(0, 2)})
+    sink = {"name": "s04", "accepts": [6], "nw": rng.randint(1, 2), "retry": None,
+            "script": ([["collect", [6] * rng.randint(2, n)], ["ret", "stop", "collected"]] if rng.random() < 0.4 else [["ret", "none"]])}
+    steps = [start, worker, sink] + extra
+    rng.shuffle(steps)
+    rng.shuffle(ext)
+    spec: dict[str, Any] = {"steps": steps, "externals": ext}
+    if rng.random() < 0.1:
+        spec["timeout"] = rng.choice([10, 30])
+    return spec
+
+
 def gen_det_spec(rng: random.Random, *, delays: bool = False) -> dict:
     """deterministic workflows (result and store independent of the schedule): start fans k events to a
     worker step (1..3 workers, optional retries) that marks the store and forwards; a single-worker
@@ -526,6 +584,8 @@ def gen_spec(rng: random.Random, **kw: Any) -> dict:  # type: ignore[no-redef]
         return gen_span_spec(rng)
     if kw.get("family") == "collect_retry":
         return gen_collect_retry_spec(rng)
+    if kw.get("family") == "handover":
+        return gen_handover_spec(rng)
     if kw.get("family") == "general" or r < 0.55:
         kw.pop("family", None)
         kw.pop("raise_incomplete", None)
